@@ -63,14 +63,23 @@ Definition dnodes_eqb : dnodes -> dnodes -> bool :=
   list_eqb (pair_eqb N.eqb (pair_eqb Bool.eqb
     (list_eqb (pair_eqb N.eqb (pair_eqb N.eqb (list_eqb (pair_eqb N.eqb tsv_eqb))))))).
 
-(* final observation: tracked nodes, force-write-free deleted partitions, new node set, state updates *)
-Definition final := (dnodes * list (N * N) * list N * supd)%type.
-Definition final_of (t : track) : final :=
-  (dump_nodes (t_nodes t), t_del t, fst (to_state_updates t), snd (to_state_updates t)).
+Definition commit_eqb (a b : commit) : bool :=
+  match a, b with
+  | CInsert n p k s, CInsert n' p' k' s' => (n =? n') && (p =? p') && (k =? k') && (s =? s')
+  | CUpdate n p k s o, CUpdate n' p' k' s' o' => (n =? n') && (p =? p') && (k =? k') && (s =? s') && (o =? o')
+  | CDelete n p k o, CDelete n' p' k' o' => (n =? n') && (p =? p') && (k =? k') && (o =? o')
+  | _, _ => false
+  end.
+
+(* final observation: get_commit_info() just before finalize(), tracked nodes, deleted partitions,
+   new node set, state updates *)
+Definition final := (list commit * dnodes * list (N * N) * list N * supd)%type.
+Definition final_of (db : dbfun) (t : track) : final :=
+  (get_commit_info db t, dump_nodes (t_nodes t), t_del t, fst (to_state_updates t), snd (to_state_updates t)).
 Definition final_eqb (a b : final) : bool :=
-  let '(n1, d1, w1, s1) := a in
-  let '(n2, d2, w2, s2) := b in
-  dnodes_eqb n1 n2 && list_eqb (pair_eqb N.eqb N.eqb) d1 d2 && list_eqb N.eqb w1 w2 && supd_eqb s1 s2.
+  let '(c1, n1, d1, w1, s1) := a in
+  let '(c2, n2, d2, w2, s2) := b in
+  list_eqb commit_eqb c1 c2 && dnodes_eqb n1 n2 && list_eqb (pair_eqb N.eqb N.eqb) d1 d2 && list_eqb N.eqb w1 w2 && supd_eqb s1 s2.
 
 Definition db_of (l : list (N * N * list (key * value))) : dbfun :=
   fun n p =>
@@ -87,4 +96,4 @@ Definition check (c : case) : bool :=
   let '(dbl, ops, outs, fin) := c in
   let '(t, mouts) := run (db_of dbl) track_new ops in
   list_eqb (pair_eqb res_eqb (list_eqb event_eqb)) mouts outs
-  && match fin with None => true | Some f => final_eqb (final_of t) f end.
+  && match fin with None => true | Some f => final_eqb (final_of (db_of dbl) t) f end.
